@@ -493,28 +493,78 @@ theorem KnownOk.keep {c c' : Ctx} {gs gs' : GS} {ps : List String} {rest : Optio
 
 /-! ## Operands compiled inline -/
 
+/-- the positions the generator delays for this callee -/
+def isLazyGen (f : Option FnObj) (j : Nat) : Bool :=
+  match f with
+  | some fo => fo.isLazyCallArg j
+  | none => false
+
+theorem exec_pushLazy (f : Nat) (e : Expr) (s : St) :
+    (exec (f + 1) (.pushLazy e)).run s = (.ok (), (s.allocLazy e).jmp (s.pc + 1) (s.allocLazy e).data) := by
+  rw [exec]; rfl
+
+/-- operands compiled inline: a delayed one is one instruction that makes the lazy argument object -/
 def TClaimV (n : Nat) : Prop :=
-  ∀ self args, FfList false self args = true → ∀ isFn c f i gs r, (compileCallArgs isFn c f i args).run gs = .ok r →
-    FnameOk self c → (∀ fo, f = some fo → ∀ j, fo.isLazyCallArg j = false) →
+  ∀ self args, FfList false self args = true → FaList args = true →
+    ∀ isFn c f i gs r, (compileCallArgs isFn c f i args).run gs = .ok r →
+    FnameOk self c → ∀ lazyAt : Nat → Bool, (∀ j, isLazyGen f j = lazyAt j) →
     ∀ m s rs env pre post, RelF m s rs env → Seg s pre r.1 post →
-      SimFL r.1 m s rs env (Ref.evalList n args env rs)
+      SimFL r.1 m s rs env (Ref.evalArgs n args i lazyAt env rs)
 
 theorem tclaimV_succ {n : Nat} (hE : FClaimE n) (hV : TClaimV n) : TClaimV (n + 1) := by
-  intro self args hargs isFn c f i gs r hc hfn hlz m s rs env pre post hrel hseg
+  intro self args hargs hfa isFn c f i gs r hc hfn lazyAt hlz m s rs env pre post hrel hseg
   match args with
   | [] =>
     rw [compileCallArgs.eq_def] at hc; simp only [g_pure_ok] at hc; subst hc
-    rw [Ref.evalList]
+    rw [Ref.evalArgs]
     · exact ⟨s, m, [], ReachX.refl s, rfl, by simp, by simp, rfl, hrel, MExt.refl s m, RExt.refl rs, FrameF.refl s,
         fun v hv => by cases hv⟩
     · omega
   | e :: es' =>
     rw [FfList] at hargs
-    simp only [Bool.and_eq_true] at hargs
-    rw [compileCallArgs_cons_run (fun fo hfo => hlz fo hfo i)] at hc
+    rw [FaList] at hfa
+    simp only [Bool.and_eq_true] at hargs hfa
+    rw [Ref.evalArgs]
+    by_cases hl : lazyAt i = true
+    · -- a delayed operand
+      simp only [hl, if_true]
+      obtain ⟨fo, rfl, hfo⟩ : ∃ fo, f = some fo ∧ fo.isLazyCallArg i = true := by
+        have := hlz i; rw [hl] at this
+        cases f with
+        | none => cases this
+        | some fo => exact ⟨fo, rfl, this⟩
+      rw [compileCallArgs_cons_lazy hfo] at hc
+      obtain ⟨rb, hb, hcode⟩ := hc
+      rw [hcode] at hseg ⊢
+      have hid : s.lazies.length = rs.thunks.length := hrel.lz.1
+      have a0 : At s pre (.pushLazy e) (rb ++ post) := (hseg.refocus (c' := [.pushLazy e]) (post' := rb ++ post) (by simp)).head
+      have r1 : ReachX s ((s.allocLazy e).jmp (s.pc + 1) (s.allocLazy e).data) :=
+        (Reach.step a0 (fun f => exec_pushLazy f e s)).toX
+      have l1 : Lands [Instr.pushLazy e].length (.lazy s.lazies.length) s ((s.allocLazy e).jmp (s.pc + 1) (s.allocLazy e).data) :=
+        ⟨rfl, by simp, rfl⟩
+      have hrelA := (hrel.allocLazy e hfa.1).jmp (s.pc + 1) (s.allocLazy e).data
+      have hfrA : FrameF s ((s.allocLazy e).jmp (s.pc + 1) (s.allocLazy e).data) :=
+        ⟨⟨rfl, rfl, rfl, rfl, Nat.le_refl _, fun _ _ => rfl, Nat.le_refl _, fun _ _ => rfl⟩, Nat.le_refl _, fun _ _ => rfl⟩
+      have hextA : RExt rs (allocThunkR rs e env) := ⟨fun i fr hf => ⟨fr, hf, rfl⟩, fun _ _ hc => hc⟩
+      have ih2 := hV self es' hargs.2 hfa.2 isFn _ (some fo) (i + 1) gs (rb, r.2) hb hfn lazyAt hlz m _ (allocThunkR rs e env) env
+        (pre ++ [.pushLazy e]) post hrelA (hseg.move l1.fn (by simp) (by rw [l1.pc, hseg.pc]; simp))
+      show (match (match Ref.evalArgs n es' (i + 1) lazyAt env (allocThunkR rs e env) with
+          | .ok vs s => Ref.R.ok (Val.lazy rs.thunks.length :: vs) s | r => r) with
+        | .ok vs' rs' => _ | .err rs' => _ | .timeout => _ | .brk _ _ => _ | .cont _ _ => _)
+      cases h2 : Ref.evalArgs n es' (i + 1) lazyAt env (allocThunkR rs e env) with
+      | ok vs' rs2 =>
+        rw [h2] at ih2
+        rw [← hid]
+        exact simFL_cons (w1 := .lazy s.lazies.length) rfl r1 l1 (MExt.refl _ _) hextA hfrA (valIn_of_const (fun _ _ _ => rfl)) ih2
+      | err rs2 => rw [h2] at ih2; exact (FailsX.of_reach r1 ih2)
+      | timeout => trivial
+      | brk l rs2 => rw [h2] at ih2; exact ih2.elim
+      | cont l rs2 => rw [h2] at ih2; exact ih2.elim
+    have hl' : lazyAt i = false := by simpa using hl
+    simp only [hl', Bool.false_eq_true, if_false]
+    rw [compileCallArgs_cons_run (fun fo hfo => by have := hlz i; rw [hl', hfo] at this; exact this)] at hc
     obtain ⟨ra, g1, rb, ha, hb, hcode⟩ := hc
     rw [hcode] at hseg ⊢
-    rw [Ref.evalList]
     have ih := hE false self e hargs.1 isFn _ gs (ra, g1) ha hfn m s rs env pre (rb ++ post) hrel
       (fun h => by cases h) (hseg.refocus (by simp))
     cases h1 : Ref.eval n e env rs with
@@ -522,10 +572,10 @@ theorem tclaimV_succ {n : Nat} (hE : FClaimE n) (hV : TClaimV n) : TClaimV (n + 
       rw [h1] at ih
       obtain ⟨s1, m1, w1, r1, l1, hv1, rel1, hm1, ext1, fr1, hcl1⟩ := ih
       simp only
-      have ih2 := hV self es' hargs.2 isFn _ f (i + 1) g1 (rb, r.2) hb hfn hlz m1 s1 rs1 env (pre ++ ra.1) post rel1
+      have ih2 := hV self es' hargs.2 hfa.2 isFn _ f (i + 1) g1 (rb, r.2) hb hfn lazyAt hlz m1 s1 rs1 env (pre ++ ra.1) post rel1
         (hseg.move l1.fn (by simp) (by rw [l1.pc, hseg.pc]; simp))
       rw [hv1]
-      cases h2 : Ref.evalList n es' env rs1 with
+      cases h2 : Ref.evalArgs n es' (i + 1) lazyAt env rs1 with
       | ok vs' rs2 => rw [h2] at ih2; exact simFL_cons rfl r1 l1 hm1 ext1 fr1 hcl1 ih2
       | err rs2 => rw [h2] at ih2; exact (FailsX.of_reach r1 ih2)
       | timeout => trivial
@@ -553,7 +603,29 @@ theorem not_anon_of_okHead {h : String} (hh : okHead h = true) (t : Nat) : h ≠
 the scopes of the activation dropped, the function re-entered at instruction 0 — the rest of the
 activation is the application of the same closure (`FClaimU`), whose return is the return of this
 activation; if the guard fails, the ordinary call behind the jump runs. -/
-theorem simT_selfcall {k : Nat} (hV : TClaimV (k + 1)) (hA : FClaimA (k + 1)) (hU : FClaimU (k + 1))
+theorem isLazyCallArg_congr {f g : FnObj} (hp : f.params = g.params) (hn : f.nargs = g.nargs) (hv : f.varargs = g.varargs)
+    (j : Nat) : f.isLazyCallArg j = g.isLazyCallArg j := by
+  unfold FnObj.isLazyCallArg; rw [hp, hn, hv]
+
+/-- for a closure object, `PrepareCallExprArgs` and the generator delay the same positions -/
+theorem isLazyVM_eq {fo : FnObj} (hu : fo.user = false) (j : Nat) : isLazyVM (some fo) j = fo.isLazyCallArg j := by
+  unfold isLazyVM
+  simp only [hu, Bool.not_false, Bool.true_and]
+  by_cases hj : fo.isLazyCallArg j = true
+  · rw [hj, Bool.and_true]
+    unfold FnObj.isLazyCallArg at hj
+    unfold FnObj.hasLazyFormals
+    split at hj
+    · cases hj
+    · cases hp : fo.params[j]? with
+      | none => rw [hp] at hj; cases hj
+      | some p =>
+        rw [hp] at hj
+        exact List.any_eq_true.mpr ⟨p, List.mem_of_getElem? hp, hj⟩
+  · have : fo.isLazyCallArg j = false := by simpa using hj
+    rw [this, Bool.and_false]
+
+theorem simT_selfcall {k : Nat} (hV : TClaimV (k + 1)) (hA : FClaimA (k + 1)) (hU : FClaimU (k + 1)) (hG : FClaimG k)
     {self h : String} {args : List Expr} (hh : (h != "") = true) (hhead : okHead h = true) (hfa : FaList args = true)
     (hself : (h != self) = true ∨ FfList false self args = true)
     (isFn : Nat → Bool) (c : Ctx) (gs : GS) (r : (List Instr × Bool) × GS)
@@ -562,7 +634,7 @@ theorem simT_selfcall {k : Nat} (hV : TClaimV (k + 1)) (hA : FClaimA (k + 1)) (h
     {m₁ : Nat → Nat} {s₁ : St} {rs₁ : Ref.St} {env vid : Nat} {D : List (Option Val)} {m : Nat → Nat} {s : St} {rs : Ref.St}
     {cenv : Nat} {pre post : List Instr}
     (hact : InAct m₁ s₁ rs₁ env vid D c.scopes m s rs) (hnargs : (fnOf s₁ vid).nargs = ps.length)
-    (hva : (fnOf s₁ vid).varargs = rest.isSome)
+    (hva : (fnOf s₁ vid).varargs = rest.isSome) (hpa : (fnOf s₁ vid).params = ps ++ rest.toList)
     (hrel : RelF m s rs cenv) (hseg : Seg s pre r.1.1 post) :
     SimT r.1.1 s₁ env D m s rs cenv (Ref.eval (k + 2) (.call (.sym h) args) cenv rs) := by
   have hok : okSym h = true := okSym_of_okHead hhead
@@ -570,7 +642,7 @@ theorem simT_selfcall {k : Nat} (hV : TClaimV (k + 1)) (hA : FClaimA (k + 1)) (h
   by_cases hcond' : ¬ ((c.tail && h == c.funcname) = true ∧ arityOk (knownFn c gs h) args.length = true)
   · rw [if_neg hcond'] at hc
     injection hc with hc; subst hc
-    exact (simF_call hA hU hok hfa hrel hseg).toT
+    exact (simF_call hA hU hG hok hfa hrel hseg).toT
   have hcond := Classical.not_not.mp hcond'
   rw [if_pos hcond] at hc
   -- the name is the running function's
@@ -612,8 +684,6 @@ theorem simT_selfcall {k : Nat} (hV : TClaimV (k + 1)) (hA : FClaimA (k + 1)) (h
   simp only at hc
   injection hc with hc; subst hc
   simp only at hseg ⊢
-  have hlz : ∀ fo, some (gs.fns.getD t {}) = some fo → ∀ j, fo.isLazyCallArg j = false := fun fo hfo j => by
-    injection hfo with hfo; subst hfo; exact notLazy_of_params hpar hps j
   -- the closure object that is running
   have hmain1 : mainFn < s₁.fns.length := Nat.lt_trans hact.good.nm hact.good.lt
   have hgs : GoodFn m s rs vid :=
@@ -623,6 +693,10 @@ theorem simT_selfcall {k : Nat} (hV : TClaimV (k + 1)) (hA : FClaimA (k + 1)) (h
   have hfo_s : fnOf s vid = fnOf s₁ vid := hact.fns vid hact.good.lt
   have hn0 : c0.ps.length = ps.length := by rw [← hnargs0, hfo_s, hnargs]
   have hv0 : c0.rest.isSome = rest.isSome := by rw [← hvar0, hfo_s, hva]
+  have hlz : ∀ j, isLazyGen (some (gs.fns.getD t {})) j = lazyAtC c0 j := fun j => by
+    show (gs.fns.getD t {}).isLazyCallArg j = _
+    rw [← isLazyVM_clo huser0 hparams hnargs0 hvar0 j, isLazyVM_eq huser0 j]
+    exact isLazyCallArg_congr (by rw [hpar, hfo_s, hpa]) (by rw [hna, hfo_s, hnargs]) (by rw [hvar, hfo_s, hva]) j
   have hin := hseg.inFn
   have hlen : (tailCode h c.scopes args code).length = code.length + c.scopes + 5 := by
     simp [tailCode]; omega
@@ -641,14 +715,14 @@ theorem simT_selfcall {k : Nat} (hV : TClaimV (k + 1)) (hA : FClaimA (k + 1)) (h
     rw [← hlook']
     simp only [Option.map_some, trp2]
     show SimT _ s₁ env D m s rs cenv (refCall k (.fn (m s.curfunc)) args cenv rs)
-    rw [hact.cur, refCall_fn k (m vid) args cenv rs c0 hc1 hokp, ← ref_evalList_eq_evalArgs]
+    rw [hact.cur, refCall_fn k (m vid) args cenv rs c0 hc1]
     -- the operands
     have hseg1 : Seg (s.jmp (s.pc + 1) s.data) (pre ++ [.tailGuard h (code.length + c.scopes + 4)]) code
         ([.prepareCall h args.length] ++ List.replicate (c.scopes + 1) Instr.removeScope
           ++ [.goto 0, .callExpr (.sym h) args] ++ post) :=
       (hin.of_fn (σ' := s.jmp (s.pc + 1) s.data) rfl).seg (by simp [tailCode]) (by rw [St.jmp_pc, hseg.pc]; simp)
-    have ihV := hV self args hargs isFn _ _ 0 gs (code, g1) hcc hfn' hlz m _ rs cenv _ _ (hrel.jmp _ _) hseg1
-    cases h1 : Ref.evalList (k + 1) args cenv rs with
+    have ihV := hV self args hargs hfa isFn _ _ 0 gs (code, g1) hcc hfn' (lazyAtC c0) hlz m _ rs cenv _ _ (hrel.jmp _ _) hseg1
+    cases h1 : Ref.evalArgs (k + 1) args 0 (lazyAtC c0) cenv rs with
     | ok vs' rs2 =>
       rw [h1] at ihV
       obtain ⟨s2, m2, vs, r2, hfn2, hpc2, hd2, hvs2, rel2, hm2, ext2, fr2, hcl2⟩ := ihV
@@ -662,7 +736,7 @@ theorem simT_selfcall {k : Nat} (hV : TClaimV (k + 1)) (hA : FClaimA (k + 1)) (h
         (hfr02.fns id (Nat.lt_of_lt_of_le hid hact.fnsLen)).trans (hact.fns id hid)
       have hfl2 : s₁.fns.length ≤ s2.fns.length := Nat.le_trans hact.fnsLen hfr02.fnsLen
       have hlen12 : vs.length = args.length := by
-        have h3 := ref_evalList_length _ _ _ _ _ _ h1
+        have h3 := ref_evalArgs_length' _ _ _ _ _ _ _ _ h1
         rw [hvs2, List.length_map] at h3
         exact h3
       have har0 : arOk c0.rest c0.ps.length vs.length := by
@@ -734,7 +808,7 @@ theorem simT_selfcall {k : Nat} (hV : TClaimV (k + 1)) (hA : FClaimA (k + 1)) (h
       have rel1' : RelF m2 s₁' rs2 env :=
         hact.rel₁.back (s₅ := s₁') rel2 (by subst hs1'; exact hsc5) (by subst hs1'; exact hfns5) (by subst hs1'; exact hheap5)
           (by subst hs1'; exact htr5) (by subst hs1'; exact hlin5) (by subst hs1'; rfl) hflags2 hfl2 hfo2 hext12.1 hle12
-          (by subst hs1'; exact hloops5)
+          (by subst hs1'; exact hloops5) (by subst hs1'; subst hs5; subst hs4; rfl)
       have hk1' : FnsKeep s₁ s₁' := FnsKeep.of_eq (by subst hs1'; rw [hfns5]; exact hfl2)
         (fun id hid => (hfo1' id).trans (hfo2 id hid)) hmain1 (by subst hs1'; unfold LoopsExt; rw [hloops5]; exact hle12)
       have good1' : GoodFn m2 s₁' rs2 vid :=
@@ -782,7 +856,7 @@ theorem simT_selfcall {k : Nat} (hV : TClaimV (k + 1)) (hA : FClaimA (k + 1)) (h
           ++ List.replicate (c.scopes + 1) Instr.removeScope ++ [.goto 0])) [.callExpr (.sym h) args] post :=
       (hin.of_fn (σ' := s.jmp (s.pc + ((code.length + c.scopes + 4 : Nat) : Int)) s.data) rfl).seg (by simp [tailCode])
         (by rw [St.jmp_pc, hseg.pc]; simp; omega)
-    have hcall := simF_call hA hU hok hfa (hrel.jmp _ _) hseg'
+    have hcall := simF_call hA hU hG hok hfa (hrel.jmp _ _) hseg'
     exact (SimF.seq r0 mv (MExt.refl _ _) (RExt.refl _) (FrameF.jmp _ _ _) hcall (by rw [hlen]; simp)).toT
 
 /-! ## The claims for tail positions -/
@@ -813,7 +887,7 @@ def TClaimE (n : Nat) : Prop :=
   ∀ ex self e, Fz ex self e = true → ∀ isFn c gs r, (compile isFn c e).run gs = .ok r → FnameOk self c →
   (ex = true → gs.loopstack = []) → ∀ ps rest, KnownOk c gs ps rest → (∀ p ∈ ps ++ rest.toList, okParam p = true) →
   ∀ m₁ s₁ rs₁ env vid D m s rs cenv pre post, InAct m₁ s₁ rs₁ env vid D c.scopes m s rs → (fnOf s₁ vid).nargs = ps.length →
-    (fnOf s₁ vid).varargs = rest.isSome →
+    ((fnOf s₁ vid).varargs = rest.isSome ∧ (fnOf s₁ vid).params = ps ++ rest.toList) →
     RelF m s rs cenv → GenOk gs r.2 s → LsOut pre gs.loops.length r.2.loops.length → Seg s pre r.1.1 post →
     SimT r.1.1 s₁ env D m s rs cenv (Ref.eval n e cenv rs)
 
@@ -821,7 +895,7 @@ def TClaimB (n : Nat) : Prop :=
   ∀ ex self es, es ≠ [] → FzList ex self es = true → ∀ isFn c gs r, (compileBegin isFn c es).run gs = .ok r → FnameOk self c →
   (ex = true → gs.loopstack = []) → ∀ ps rest, KnownOk c gs ps rest → (∀ p ∈ ps ++ rest.toList, okParam p = true) →
   ∀ m₁ s₁ rs₁ env vid D m s rs cenv pre post, InAct m₁ s₁ rs₁ env vid D c.scopes m s rs → (fnOf s₁ vid).nargs = ps.length →
-    (fnOf s₁ vid).varargs = rest.isSome →
+    ((fnOf s₁ vid).varargs = rest.isSome ∧ (fnOf s₁ vid).params = ps ++ rest.toList) →
     RelF m s rs cenv → GenOk gs r.2 s → LsOut pre gs.loops.length r.2.loops.length → Seg s pre r.1.1 post →
     SimT r.1.1 s₁ env D m s rs cenv (Ref.evalBegin n es cenv rs)
 
@@ -829,7 +903,7 @@ def TClaimN (n : Nat) : Prop :=
   ∀ ex self es, es ≠ [] → FzList ex self es = true → ∀ isFn c oldtail gs r, (compileNewScope isFn c oldtail es).run gs = .ok r →
   FnameOk self c → (ex = true → gs.loopstack = []) → ∀ ps rest, KnownOk c gs ps rest → (∀ p ∈ ps ++ rest.toList, okParam p = true) →
   ∀ m₁ s₁ rs₁ env vid D m s rs cenv pre post, InAct m₁ s₁ rs₁ env vid D c.scopes m s rs → (fnOf s₁ vid).nargs = ps.length →
-    (fnOf s₁ vid).varargs = rest.isSome →
+    ((fnOf s₁ vid).varargs = rest.isSome ∧ (fnOf s₁ vid).params = ps ++ rest.toList) →
     RelF m s rs cenv → GenOk gs r.2 s → LsOut pre gs.loops.length r.2.loops.length → Seg s pre r.1.1 post →
     SimT r.1.1 s₁ env D m s rs cenv (Ref.evalBegin n es cenv rs)
 
@@ -839,7 +913,7 @@ def TClaimC (n : Nat) : Prop :=
   (ex = true → gs.loopstack = []) → (ex = true → gs0.loopstack = []) →
   ∀ ps rest, KnownOk c gs ps rest → KnownOk c gs0 ps rest → (∀ p ∈ ps ++ rest.toList, okParam p = true) →
   ∀ m₁ s₁ rs₁ env vid D m s rs cenv pre post, InAct m₁ s₁ rs₁ env vid D c.scopes m s rs → (fnOf s₁ vid).nargs = ps.length →
-    (fnOf s₁ vid).varargs = rest.isSome →
+    ((fnOf s₁ vid).varargs = rest.isSome ∧ (fnOf s₁ vid).params = ps ++ rest.toList) →
     RelF m s rs cenv → GenOk gs r.2 s → GenOk gs0 rd.2 s →
     LsOut pre gs.loops.length r.2.loops.length → LsOut pre gs0.loops.length rd.2.loops.length →
     rd.2.loops.length ≤ gs.loops.length → Seg s pre (asmCond r.1 rd.1.1) post →
@@ -1005,8 +1079,8 @@ theorem tclaimC_succ {n : Nat} (hFE : FClaimE n) (hE : TClaimE n) (hC : TClaimC 
     | cont l rs1 => rw [h1] at ih; exact ih.elim
 
 theorem tclaimE_succ {n : Nat} (hFE1 : FClaimE (n + 1)) (hXE1 : XClaimE (n + 1)) (hV : TClaimV n) (hA : FClaimA n)
-    (hU : FClaimU n) (hL : FClaimL n) (hP : FClaimP n) (hB : TClaimB n) (hC : TClaimC n) (hN : TClaimN n) :
-    TClaimE (n + 1) := by
+    (hU : FClaimU n) (hG : ∀ k, n = k + 1 → FClaimG k) (hL : FClaimL n) (hP : FClaimP n) (hB : TClaimB n) (hC : TClaimC n)
+    (hN : TClaimN n) : TClaimE (n + 1) := by
   intro ex self e he isFn c gs r hc hfn hex ps rest hkn hps m₁ s₁ rs₁ env vid D m s rs cenv pre post hact hna hva hrel hgen hlo hseg
   have hff : Ff true self e = true → SimT r.1.1 s₁ env D m s rs cenv (Ref.eval (n + 1) e cenv rs) := fun h =>
     (hFE1 true self e h isFn c gs r hc hfn m s rs cenv pre post hrel (fun _ => hgen) hseg).toT
@@ -1019,7 +1093,7 @@ theorem tclaimE_succ {n : Nat} (hFE1 : FClaimE (n + 1)) (hXE1 : XClaimE (n + 1))
       cases n with
       | zero => rw [Ref.eval, Ref.eval]; trivial
       | succ k =>
-        exact simT_selfcall hV hA hU he.1.1.1 he.1.1.2 he.1.2 he.2 isFn c gs r hc hfn hkn hps hact hna hva hrel hseg
+        exact simT_selfcall hV hA hU (hG k rfl) he.1.1.1 he.1.1.2 he.1.2 he.2 isFn c gs r hc hfn hkn hps hact hna hva.1 hva.2 hrel hseg
     | _ => simp [Fz] at he
   | begin_ es =>
     rw [Fz] at he
@@ -1169,8 +1243,8 @@ theorem tclaimE_succ {n : Nat} (hFE1 : FClaimE (n + 1)) (hXE1 : XClaimE (n + 1))
 
 theorem tclaims_zero : TClaimV 0 ∧ TClaimE 0 ∧ TClaimB 0 ∧ TClaimC 0 ∧ TClaimN 0 := by
   refine ⟨?_, ?_, ?_, ?_, ?_⟩
-  · intro self args hargs isFn c f i gs r hc hfn hlz m s rs env pre post hrel hseg
-    rw [Ref.evalList]; trivial
+  · intro self args hargs hfa isFn c f i gs r hc hfn lazyAt hlz m s rs env pre post hrel hseg
+    rw [Ref.evalArgs]; trivial
   · intro ex self e he isFn c gs r hc hfn hex ps rest hkn hps m₁ s₁ rs₁ env vid D m s rs cenv pre post hact hna hva hrel hgen hlo hseg
     rw [Ref.eval]; trivial
   · intro ex self es hne hes isFn c gs r hc hfn hex ps rest hkn hps m₁ s₁ rs₁ env vid D m s rs cenv pre post hact hna hva hrel hgen hlo
@@ -1287,6 +1361,7 @@ theorem fclaimU_succ {n : Nat} (hB : TClaimB n) : FClaimU (n + 1) := by
   have relB : RelF m s₄ rsB rs₁.frames.length := by
     refine hrel.enter hg (fun c' hc' => by rw [hc1] at hc'; injection hc' with hc'; rw [hc']) s₄ rsB t _ _ hsc4 hlin4 hfns4 hcur4 (by subst hs4; subst hs3; rfl) (by subst hs4; subst hs3; rfl)
       hfrB hclB hhpB htrB htclo (fun y => ?_) (fun y v hv => ?_) (fun h hh => ?_) hloops4
+      (by subst hs4; subst hs3; rfl) (by rw [hfold])
     · rw [lookup_bindsVars, lookup_bindsVars, List.reverse_reverse, lookup_reverse_of_nodup _ hndz', lookup_zip_map]
       cases (F.zip vs).lookup y <;> rfl
     · rw [lookup_bindsVars, List.reverse_reverse] at hv
@@ -1316,7 +1391,7 @@ theorem fclaimU_succ {n : Nat} (hB : TClaimB n) : FClaimU (n + 1) := by
   have hlo4 : LsOut ([.addFuncScope t] ++ (F.map Instr.popStackPutEnv).reverse) gs0.loops.length gs1.loops.length :=
     fun l hl => by simp at hl
   have hsim := hB ex self c'.body hbody hff isFn cb gs0 ((b, tl), gs1) hcomp hfname hexg c'.ps c'.rest hkn (hFe ▸ hokF) m s₁ rs₁ env vid D m s₄ rsB
-    rs₁.frames.length _ _ hact hnargs hvar relB (hgen.mono (FnsKeep.of_fns_eq hfns4 (LoopsExt.of_eq hloops4))) hlo4 hseg4
+    rs₁.frames.length _ _ hact hnargs ⟨hvar, by rw [hFe]; exact hparams⟩ relB (hgen.mono (FnsKeep.of_fns_eq hfns4 (LoopsExt.of_eq hloops4))) hlo4 hseg4
   have hreach4 : ReachX ((enteredA s₁ vid c'.rest c'.ps.length vs₀ D)) s₄ := r2.trans r4
   cases hres : Ref.evalBegin n c'.body rs₁.frames.length rsB with
   | ok v' rs' =>
